@@ -54,6 +54,20 @@ CHECKS = {
             "Knot locator only aims inputs; inverse direction checked for order/range/end-points with slope-scaled tolerance "
             "(its accuracy is C02/C19); boxes whose bins fall below the dtype's resolution are skipped (counted by label).",
             "DESIGN.md 3/C09"),
+    "C10": ("Hypothesis-generated operation histories (phase-structured lists: switches, parameter change, calls) run against "
+            "an uncached twin rebuilt from the current state_dict after every call; whole history shrinks as one value",
+            "Exploration: histories of 3-30 operations over train/eval/use_cache/forward/inverse/SGD step/load_state_dict/"
+            "double/float/forward+backward (repeated)/deepcopy on the five linear classes; after every call outputs, log-dets "
+            "and input gradients equal a fresh using_cache=False twin with the subject's current parameters and dtype; "
+            "operations that work on the twin must not raise on the subject.",
+            "Histories are op lists interpreted with preconditions (SGD only in training mode) instead of a RuleBasedStateMachine "
+            "so that the shrunk history is itself the JSON replay file.", "DESIGN.md 3/C10"),
+    "C11": ("Hypothesis-generated parameterisations (sizes, Householder counts incl. > features, init modes, perturbed/rescaled "
+            "parameters, float32/64, cache priming order) against a numpy float64 reference of x -> Wx+b",
+            "Exploration: weight(), weight_inverse(), logabsdet(), combined accessors, forward, inverse, matrix() checked against "
+            "numpy slogdet/inv of the returned W with cond-scaled tolerances; orthogonality of Householder sequences for any vector "
+            "length; constructor outputs finite and invertible.",
+            "cond(W) > 1e8 (float64) / 1e3 (float32) inconclusive.", "DESIGN.md 3/C11"),
     "C17": ("Hypothesis-generated boundary probes (on / 1,2,8 ulp inside / 1,2,8 ulp outside / far) at any batch position, for "
             "every domain-restricted transform and direction, float32 and float64; exception-type and finiteness oracle",
             "Exploration: one probe element placed relative to the domain edge (in the working dtype) among valid elements, for "
